@@ -65,6 +65,12 @@ class SimLoop(asyncio.BaseEventLoop):
         super().__init__()
         self._w = world
         world.loops += 1
+        # per-run configuration of the asyncio machinery (legal settings an application may use)
+        env = getattr(world, "env", None) or {}
+        if env.get("asyncio_debug"):
+            self.set_debug(True)
+        if env.get("eager_tasks"):
+            self.set_task_factory(asyncio.eager_task_factory)
 
     def time(self):
         return self._w.now
